@@ -599,6 +599,20 @@ pub async fn execute(plan: Plan, dir: &Path) -> RunOutcome {
             "restart" => {
                 world.devices[di].bridge = None;
                 let r = world.devices[di].dev.exec(s, &mut rec, 0).await;
+                if r.starts_with("err") {
+                    // the account on this device no longer opens: a verdict for
+                    // the convergence property (a replica that cannot sign in
+                    // never converges), and the end of this run
+                    let tag = if world.devices.iter().any(|d| d.own.rewritten) { "/after_history_rewrite" } else { "" };
+                    rec.violate(
+                        "C04",
+                        &format!("C04/not_converged/device_no_longer_opens/{}{tag}", normalise_err(&r)),
+                        format!("d{di}: a fresh account over the persisted storage does not sign in: {r}"),
+                    );
+                    rec.stats.probe("restart_failed_run_truncated");
+                    rec.step(idx, &opn, "err", &format!("d{di} {r}"));
+                    break;
+                }
                 r
             }
             "upgrade" => crate::upgradew::upgrade_device(&mut world, di, s, &mut rec).await,
